@@ -652,4 +652,82 @@ theorem containedIn_eq (c o : ConnSet) : Gen.Procs.containedIn c o = .ok (c.cont
     simp [Gen.Procs.containedIn, Gen.Procs.containedIn_loop1, ConnSet.containedIn, Proto.all, ConnSet.get, ok_bind, pure_ok, bind_ok_id, ite_ok]
   all_goals (repeat (first | rfl | (split <;> simp_all [ok_bind, pure_ok, bind_ok_id, ite_ok])))
 
+-- ------------------------------------------------------------------------------------------
+-- portset.go: a Go `map[string]bool` used as a set of names is the model's sorted list of names; `S[k] = true` is `sinsert`,
+-- `delete(S, k)` is `serase`, `S[k]` is membership, and a loop over the set visits its names
+
+private theorem union_names_loop (l : List String) (p : PortSet) :
+    l.foldlM (m := Except Err) (fun p k => do
+      let mut p := p
+      let v := true
+      p := { p with named := sinsert k p.named }
+      p := { p with excluded := serase k p.excluded }
+      return p) p =
+    .ok { p with named := l.foldl (fun acc k => sinsert k acc) p.named, excluded := l.foldl (fun acc k => serase k acc) p.excluded } := by
+  induction l generalizing p with
+  | nil => rfl
+  | cons k ks ih =>
+    simp only [List.foldlM, List.foldl, ok_bind, pure_ok]
+    exact ih _
+
+private theorem union_excluded_loop (l : List String) (p : PortSet) :
+    l.foldlM (m := Except Err) (fun p k => do
+      let mut p := p
+      let v := true
+      if (!(p.named.contains k)) then
+        p := { p with excluded := sinsert k p.excluded }
+      return p) p =
+    .ok { p with excluded := l.foldl (fun acc k => if p.named.contains k then acc else sinsert k acc) p.excluded } := by
+  induction l generalizing p with
+  | nil => rfl
+  | cons k ks ih =>
+    simp only [List.foldlM, List.foldl]
+    cases hc : p.named.contains k
+    · simp only [hc, Bool.not_false, if_true, ok_bind, pure_ok, Bool.false_eq_true, if_false]
+      exact ih _
+    · simp only [hc, Bool.not_true, Bool.false_eq_true, if_false, ok_bind, pure_ok, if_true]
+      exact ih _
+
+/-- `PortSet.Union` -/
+theorem portSetUnion_eq (p o : PortSet) : Gen.Procs.portSetUnion p o = .ok (p.union o) := by
+  unfold Gen.Procs.portSetUnion PortSet.union
+  simp only []
+  rw [union_names_loop]
+  simp only [ok_bind]
+  rw [union_excluded_loop]
+
+private theorem subtract_names_loop (l : List String) (p : PortSet) :
+    l.foldlM (m := Except Err) (fun p namedPort => do
+      let mut p := p
+      p := { p with named := serase namedPort p.named }
+      p := { p with excluded := sinsert namedPort p.excluded }
+      return p) p =
+    .ok { p with named := l.foldl (fun acc k => serase k acc) p.named, excluded := l.foldl (fun acc k => sinsert k acc) p.excluded } := by
+  induction l generalizing p with
+  | nil => rfl
+  | cons k ks ih =>
+    simp only [List.foldlM, List.foldl, ok_bind, pure_ok]
+    exact ih _
+
+/-- `PortSet.subtract` (with `subtractNamedPorts`) -/
+theorem portSetSubtract_eq (p o : PortSet) : Gen.Procs.portSetSubtract p o = .ok (p.subtract o) := by
+  unfold Gen.Procs.portSetSubtract Gen.Procs.portSetSubtractNamedPorts PortSet.subtract
+  simp only []
+  rw [subtract_names_loop]
+
+/-- `PortSet.Intersection` (numeric ports only, as coded) -/
+theorem portSetIntersection_eq (p o : PortSet) : Gen.Procs.portSetIntersection p o = .ok (p.inter o) := rfl
+
+/-- `PortSet.ContainedIn` -/
+theorem portSetContainedIn_eq (p o : PortSet) : Gen.Procs.portSetContainedIn p o = .ok (p.containedIn o) := by
+  unfold Gen.Procs.portSetContainedIn PortSet.containedIn
+  cases h1 : CSet.isSubset p.ports o.ports <;> cases h2 : CSet.equal o.ports (PortSet.mk' true).ports <;>
+    cases h3 : p.named.all (fun n => o.named.contains n) <;>
+    simp_all [PortSet.mk', pure_ok, List.any_eq_true, List.all_eq_true]
+
+/-- `PortSet.IsAll` -/
+theorem portSetIsAll_eq (p : PortSet) : Gen.Procs.portSetIsAll p = .ok p.isAll := by
+  unfold Gen.Procs.portSetIsAll PortSet.isAll
+  cases p.excluded <;> simp [PortSet.mk', pure_ok]
+
 end Netpol.Tie.Procs
